@@ -4,8 +4,18 @@
    It shares only the vocabulary types (cfg, frame, arp_pkt, event) and the two address
    predicates (in_lan, link_local: re-statements of net/netip) with the model; it keeps its
    OWN bookkeeping: the set of hunted MACs (started and not stopped), the history of offers,
-   whether Close happened, and for every spoof loop ever started its target MAC and whether
-   it has terminated. *)
+   whether Close happened, whether the connection may currently fail writes, and for every
+   spoof loop ever started its target MAC and how far its current iteration got.
+
+   Readings fixed here (see docs/C13.md):
+   * Confinement is judged where the handler DECIDES: a loop's forged frame is justified by the
+     hunt list at that iteration's lookup (under the lock).  A StopHunt or Close that returns
+     between the decision and the write does not make the (one) frame already decided a violation:
+     the text forbids forged frames "after" the restoring packet, which still follows.
+   * A frame is "sent" when it is handed to the connection; when the connection refuses the write
+     (FailWrites) silence is accepted where a frame is due.
+   * Frames the CALLER asks for through the public send API (AnnounceTo / RequestRaw / Reply with
+     sender = our MAC + router IP) are the caller's doing. *)
 From PV Require Import Base.Prelude Model.ArpSpoof.
 Open Scope N_scope.
 
@@ -17,8 +27,8 @@ Definition sp_is_probe (p : arp_pkt) : bool :=
   (pop p =? 1) && (psip p =? 0) && negb (ptip p =? 0).
 
 (* a host asks who has the router's address: an ordinary request (sender IP set, not an
-   announcement) for the router IP.  Reading fixed here: packets with a link-local sender or
-   target are ignored by the handler by its documented convention ("skip link local packets"). *)
+   announcement) for the router IP.  Packets with a link-local sender or target are ignored by
+   the handler by its documented convention ("skip link local packets"). *)
 Definition sp_asks_router (c : cfg) (p : arp_pkt) : bool :=
   (pop p =? 1) && (ptip p =? router_ip c) && negb (psip p =? 0) && negb (psip p =? ptip p)
   && negb (link_local (psip p)) && negb (link_local (ptip p)).
@@ -47,10 +57,6 @@ Definition sp_probe_reject_due (c : cfg) (hist : list (mac * option ip4)) (p : a
 Definition sp_forged (c : cfg) (f : frame) : bool :=
   (fsip f =? router_ip c) && (fsmac f =? host_mac c).
 
-Definition frame_eqb (a b : frame) : bool :=
-  (fop a =? fop b) && (fedst a =? fedst b) && (fsmac a =? fsmac b) && (fsip a =? fsip b)
-  && (ftmac a =? ftmac b) && (ftip a =? ftip b).
-
 (* the packet that restores the router's real MAC at target m: sender = (router MAC, router IP), unicast to m *)
 Definition sp_is_restore (c : cfg) (m : mac) (f : frame) : bool :=
   (fedst f =? m) && (fsmac f =? router_mac c) && (fsip f =? router_ip c).
@@ -59,87 +65,134 @@ Definition sp_is_restore (c : cfg) (m : mac) (f : frame) : bool :=
 Definition sp_is_reply_to (c : cfg) (p : arp_pkt) (f : frame) : bool :=
   (fop f =? 2) && (fedst f =? psmac p) && (fsmac f =? host_mac c) && (fsip f =? ptip p) && (ftmac f =? psmac p).
 
+(* the caller's own forgery through the public send API *)
+Definition sp_caller_forged (c : cfg) (e : event) : bool :=
+  match e with
+  | ApiAnnounceTo _ ip => ip =? router_ip c
+  | ApiRequestRaw _ sender _ | ApiReply _ sender _ => (aip sender =? router_ip c) && (amac sender =? host_mac c)
+  | _ => false
+  end.
+
+(* a received frame is an ARP packet the handler must look at: EtherType 0x0806, at least 28 bytes,
+   Ethernet/IPv4 header 00 01 08 00 06 04 (RFC 826); decoded independently of the model's slice code *)
+Definition sp_num (l : bytes) : N := fold_right (fun b acc => b + 256 * acc) 0 (rev l).
+Definition sp_field (b : bytes) (off n : nat) : N := sp_num (firstn n (skipn off b)).
+Definition sp_decode (ethertype : N) (b : bytes) : option arp_pkt :=
+  if (ethertype =? 2054) && Nat.leb 28 (List.length b)
+     && (sp_field b 0 2 =? 1) && (sp_field b 2 2 =? 2048) && (sp_field b 4 1 =? 6) && (sp_field b 5 1 =? 4)
+  then Some (mkPkt (sp_field b 6 2) 0 (sp_field b 8 6) (sp_field b 14 4) (sp_field b 18 6) (sp_field b 24 4))
+  else None.
+
 (* ---- monitor ---- *)
+
+Inductive sphase :=
+| SIdle                 (* between iterations *)
+| SLooked (h : bool)    (* this iteration's lookup happened; h: the MAC was hunted then *)
+| SChecked (h : bool)   (* ... and the loop went on to send (the handler was open at its check) *)
+| SDone.                (* the loop has terminated *)
 
 Record sp_state := mkSp {
   sp_hunted : list mac;
   sp_hist : list (mac * option ip4);
   sp_closed : bool;
-  sp_loops : list (mac * bool)      (* target MAC, terminated *)
+  sp_failing : bool;                  (* the connection may refuse writes *)
+  sp_loops : list (mac * sphase)
 }.
-Definition sp_init : sp_state := mkSp [] [] false [].
+Definition sp_init : sp_state := mkSp [] [] false false [].
 
-Inductive viol := VConfined | VProbeReject | VSpoofReply | VStopUndone | VCloseStops | VIdempotent | VOther.
+Inductive viol := VConfined | VProbeReject | VSpoofReply | VStopUndone | VCloseStops | VIdempotent
+                | VPeriodic | VOther.
 
 Definition mem (m : mac) (l : list mac) : bool := existsb (N.eqb m) l.
 
-(* clauses that hold for every event: confinement, silence after Close *)
-Definition sp_check_all (c : cfg) (s : sp_state) (out : list frame) : list viol :=
-  (if forallb (fun f => negb (sp_forged c f) || mem (fedst f) (sp_hunted s)) out then [] else [VConfined])
-  ++ (if sp_closed s && existsb (sp_forged c) out then [VCloseStops] else []).
+Definition silent (out : list frame) (v : viol) : list viol := match out with [] => [] | _ => [v] end.
 
-Definition sp_set_loop (i : nat) (m : mac) (s : sp_state) : sp_state :=
-  mkSp (sp_hunted s) (sp_hist s) (sp_closed s) (set_nth i (m, true) (sp_loops s)).
+(* events of the handler's own making other than a loop's write: forged frames only to hunted MACs,
+   nothing at all once closed *)
+Definition sp_check_own (c : cfg) (s : sp_state) (out : list frame) : list viol :=
+  (if forallb (fun f => negb (sp_forged c f) || mem (fedst f) (sp_hunted s)) out then [] else [VConfined])
+  ++ (if sp_closed s then silent out VCloseStops else []).
+
+Definition sp_set_phase (i : nat) (m : mac) (p : sphase) (s : sp_state) : sp_state :=
+  mkSp (sp_hunted s) (sp_hist s) (sp_closed s) (sp_failing s) (set_nth i (m, p) (sp_loops s)).
+
+(* what a received, valid ARP packet must be answered with *)
+Definition sp_rx (c : cfg) (s : sp_state) (p : arp_pkt) (out : list frame) : list viol :=
+  if sp_closed s then silent out VCloseStops
+  else if sp_is_probe p then
+    if sp_probe_reject_due c (sp_hist s) p then
+      match out with
+      | [f] => if sp_is_reply_to c p f && (ftip f =? IP4_BCAST) then [] else [VProbeReject]
+      | [] => if sp_failing s then [] else [VProbeReject]
+      | _ => [VProbeReject]
+      end
+    else silent out VProbeReject
+  else if sp_asks_router c p && mem (psmac p) (sp_hunted s) then
+    match out with
+    | [f] => if sp_is_reply_to c p f && (ftip f =? psip p) then [] else [VSpoofReply]
+    | [] => if sp_failing s then [] else [VSpoofReply]
+    | _ => [VSpoofReply]
+    end
+  else silent out VSpoofReply.
 
 Definition sp_step (c : cfg) (s : sp_state) (e : event) (out : list frame) : sp_state * list viol :=
-  let common := sp_check_all c s out in
   match e with
   | StartHunt a =>
       (* idempotent per MAC: a hunted MAC gets no second loop; the call itself sends nothing *)
-      let v := match out with [] => [] | _ => [VIdempotent] end in
-      if mem (amac a) (sp_hunted s) then (s, common ++ v)
-      else (mkSp (amac a :: sp_hunted s) (sp_hist s) (sp_closed s) (sp_loops s ++ [(amac a, false)]), common ++ v)
-  | StartHuntInvalid => (s, common ++ match out with [] => [] | _ => [VOther] end)
+      let v := sp_check_own c s out ++ silent out VIdempotent in
+      if mem (amac a) (sp_hunted s) then (s, v)
+      else (mkSp (amac a :: sp_hunted s) (sp_hist s) (sp_closed s) (sp_failing s) (sp_loops s ++ [(amac a, SIdle)]), v)
+  | StartHuntInvalid => (s, sp_check_own c s out ++ silent out VOther)
   | StopHunt m =>
-      (mkSp (filter (fun x => negb (x =? m)) (sp_hunted s)) (sp_hist s) (sp_closed s) (sp_loops s), common)
-  | Close => (mkSp (sp_hunted s) (sp_hist s) true (sp_loops s), common)
-  | SetOffer m o => (mkSp (sp_hunted s) ((m, o) :: sp_hist s) (sp_closed s) (sp_loops s), common)
-  | Wake i =>
+      (mkSp (filter (fun x => negb (x =? m)) (sp_hunted s)) (sp_hist s) (sp_closed s) (sp_failing s) (sp_loops s),
+       sp_check_own c s out)
+  | Close => (mkSp (sp_hunted s) (sp_hist s) true (sp_failing s) (sp_loops s), sp_check_own c s out)
+  | SetOffer m o => (mkSp (sp_hunted s) ((m, o) :: sp_hist s) (sp_closed s) (sp_failing s) (sp_loops s), sp_check_own c s out)
+  | FailWrites k =>
+      (mkSp (sp_hunted s) (sp_hist s) (sp_closed s) (match k with O => false | _ => true end) (sp_loops s),
+       sp_check_own c s out)
+  | Lookup i =>
+      (* the loop looks its MAC up (under the lock): this is where the iteration's frame is decided *)
+      let v := silent out VOther in
       match nth_error (sp_loops s) i with
-      | None => (s, common ++ match out with [] => [] | _ => [VOther] end)
-      | Some (m, true) =>
-          (* a terminated loop sends nothing any more *)
-          (s, common ++ match out with [] => [] | _ => [VStopUndone] end)
-      | Some (m, false) =>
-          if sp_closed s then
-            (* Close stops all loops: the loop ends at this wake-up and is silent *)
-            (sp_set_loop i m s, common ++ match out with [] => [] | _ => [VCloseStops] end)
-          else if mem m (sp_hunted s) then
-            (* still hunted: one forged announcement (confinement is checked above), or the loop gives up
-               with the restoring packet (the property does not forbid restoring a hunted host) *)
-            match out with
-            | [f] => if sp_forged c f then (s, common)
-                     else if sp_is_restore c m f then (sp_set_loop i m s, common)
-                     else (s, common ++ [VOther])
-            | _ => (s, common ++ [VOther])
-            end
-          else
-            (* no longer hunted: this wake-up must restore the router's MAC at m and end the loop *)
-            match out with
-            | [f] => if sp_is_restore c m f && negb (sp_forged c f) then (sp_set_loop i m s, common)
-                     else (s, common ++ [VStopUndone])
-            | _ => (s, common ++ [VStopUndone])
-            end
+      | Some (m, SIdle) => (sp_set_phase i m (SLooked (mem m (sp_hunted s))) s, v)
+      | _ => (s, v)
       end
-  | RxArp p =>
-      let v :=
-        if sp_closed s then
-          (* Close stops all spoofing: a closed handler answers nothing *)
-          match out with [] => [] | _ => [VCloseStops] end
-        else if sp_is_probe p then
-          if sp_probe_reject_due c (sp_hist s) p then
-            match out with
-            | [f] => if sp_is_reply_to c p f && (ftip f =? IP4_BCAST) then [] else [VProbeReject]
-            | _ => [VProbeReject]
-            end
-          else match out with [] => [] | _ => [VProbeReject] end
-        else if sp_asks_router c p && mem (psmac p) (sp_hunted s) then
+  | Check i =>
+      let v := silent out VOther in
+      match nth_error (sp_loops s) i with
+      | Some (m, SLooked h) => (sp_set_phase i m (if sp_closed s then SDone else SChecked h) s, v)
+      | _ => (s, v)
+      end
+  | Send i =>
+      match nth_error (sp_loops s) i with
+      | Some (m, SChecked true) =>
+          (* decided while hunted: one forged announcement to that MAC ("periodically while hunted") *)
           match out with
-          | [f] => if sp_is_reply_to c p f && (ftip f =? psip p) then [] else [VSpoofReply]
-          | _ => [VSpoofReply]
+          | [f] => (sp_set_phase i m SIdle s, if sp_forged c f && (fedst f =? m) then [] else [VConfined])
+          | [] => (sp_set_phase i m SIdle s, if sp_failing s then [] else [VPeriodic])
+          | _ => (sp_set_phase i m SIdle s, [VOther])
           end
-        else match out with [] => [] | _ => [VSpoofReply] end
-      in (s, common ++ v)
+      | Some (m, SChecked false) =>
+          (* decided while NOT hunted: the packet restoring the router's MAC, and the loop ends *)
+          match out with
+          | [f] => (sp_set_phase i m SDone s,
+                    if sp_is_restore c m f && negb (sp_forged c f) then [] else [VStopUndone])
+          | [] => (sp_set_phase i m SDone s, if sp_failing s then [] else [VStopUndone])
+          | _ => (sp_set_phase i m SDone s, [VStopUndone])
+          end
+      | Some (m, SDone) => (s, silent out VStopUndone)     (* a terminated loop sends nothing any more *)
+      | _ => (s, silent out VOther)
+      end
+  | RxArp p => (s, sp_rx c s p out)
+  | RxRaw et b =>
+      match sp_decode et b with
+      | Some p => (s, sp_rx c s p out)
+      | None => (s, silent out VOther)                     (* not a valid ARP packet: ignored *)
+      end
+  | _ =>
+      (* public send API: whatever it sends is the caller's call, but it must not forge on its own *)
+      (s, if sp_caller_forged c e || forallb (fun f => negb (sp_forged c f)) out then [] else [VConfined])
   end.
 
 (* violations per position *)
